@@ -40,6 +40,20 @@ static void finalCounts(int n)
   for(int i = 0; i < n; ++i) if(execCount[i] != 1) vf_failf("C10:exactly-once", "call %d was executed %d times", i, execCount[i]);
 }
 
+// ------------------------------------------------------------------------------------------------ result type with a lifetime
+// a result object that notices when the started function's return value is stored into it after it has been destroyed
+static int resLive, resAssignedToDead;
+struct Res
+{
+  int magic; int* cell;
+  Res() : magic(0x5e5), cell(new int(0)) { ++resLive; }
+  Res(int v) : magic(0x5e5), cell(new int(v)) { ++resLive; }
+  Res(const Res& o) : magic(0x5e5), cell(new int(o.magic == 0x5e5 ? *o.cell : -1)) { ++resLive; }
+  ~Res() { if(magic == 0x5e5) { delete cell; cell = 0; magic = 0xdead; --resLive; } }
+  Res& operator=(const Res& o) { if(magic != 0x5e5) { ++resAssignedToDead; return *this; } *cell = o.magic == 0x5e5 ? *o.cell : -1; return *this; }
+};
+static Res workRes(int arg) { ++execCount[2]; g_pt = g_pt + 1; bodyDone[2] = 1; return Res(arg * 10 + 2); }
+
 // ------------------------------------------------------------------------------------------------ every start() overload
 // free functions with 0..5 parameters and member functions with 0..4 parameters, with and without a result: each must run once with
 // exactly the arguments given (distinct values per position) and deliver its own result
@@ -121,7 +135,14 @@ static void scen(int variant)
     { Future<int> f; f.start(work0, 5); int r = f; checkCall(0, 5, r, "result conversion"); checkState(f, false, "F1"); }
     { Future<int> g; g.start(work1, 6); }      // destructor joins
     if(!bodyDone[1]) vf_failf("C10:join-before-completion", "the destructor returned before the started function had finished");
-    calls = 2;
+    resLive = resAssignedToDead = 0;
+    { Future<Res> h; h.start(workRes, 4); }    // started and dropped: the result object must outlive the execution
+    if(!bodyDone[2]) vf_failf("C10:join-before-completion", "the destructor of a Future with a class-type result returned before the started function had finished");
+    if(resAssignedToDead) vf_failf("C10:join-before-completion", "the return value was stored into a result object that had already been destroyed");
+    if(resLive != 0) vf_failf("C10:result", "%d result object(s) still alive after the Future was destroyed", resLive);
+    { Future<Res> h; h.start(workRes, 5); Res r = h; if(*r.cell != 52) vf_failf("C10:result", "class-type result converted to %d, the function returned 52", *r.cell); }
+    execCount[2] = 1;
+    calls = 3;
     break;
   }
   case 1: // F2: two clients race for the lazy pool creation
